@@ -20,7 +20,8 @@ import xml.etree.ElementTree as ET
 from concurrent.futures import ThreadPoolExecutor
 
 V = os.path.dirname(os.path.dirname(os.path.abspath(__file__)))
-B = os.path.join(V, ".build", "tla")
+B = os.path.join(os.environ.get("VERIF_BUILD", os.path.join(V, ".build")), "tla")
+OUT = os.environ.get("VERIF_OUT", V)
 REPO = os.environ.get("VERIF_REPO", "/repo")
 JAR = "/opt/veriftools/tla/tla2tools.jar"
 WANTED_INV = ("TypeOK", "InvTwoBlocksAccepted", "InvTwoBlocksAcceptedAdvanced", "InvFaultNodesCount")
@@ -186,8 +187,8 @@ def main():
     depth = 100
     t0 = time.time()
     os.makedirs(B, exist_ok=True)
-    os.makedirs(os.path.join(V, "replays"), exist_ok=True)
-    os.makedirs(os.path.join(V, "evidence"), exist_ok=True)
+    os.makedirs(os.path.join(OUT, "replays"), exist_ok=True)
+    os.makedirs(os.path.join(OUT, "evidence"), exist_ok=True)
     cfgs = configs(tier, seed)
     jobs = [(i, c, (seed * 1000003 + i * 7919) % (2 ** 31), num, depth) for i, c in enumerate(cfgs)]
     with ThreadPoolExecutor(max_workers=max(1, workers // 2)) as ex:
@@ -232,12 +233,12 @@ def main():
         "assumptions": ["TLC (tla2tools.jar) is trusted", "random walks sample the reachable states; nothing is enumerated"],
         "wall_s": round(wall, 2), "violations": len(viol),
     }
-    json.dump(ev, open(os.path.join(V, "evidence", "C20.json"), "w"), indent=1)
+    json.dump(ev, open(os.path.join(OUT, "evidence", "C20.json"), "w"), indent=1)
     print("C20 %s: %d configurations, %d walks, %d states checked, %d distinct walks with fault actions, wall %.1f s" % (
         tier, len(results), traces, ev["coverage"]["states_checked"], len(fsigs), wall))
     if viol:
         for r in viol:
-            path = os.path.join(V, "replays", "C20-%d-%d.json" % (seed, r["idx"]))
+            path = os.path.join(OUT, "replays", "C20-%d-%d.json" % (seed, r["idx"]))
             cfg = dict(r["cfg"])
             json.dump({"property": "C20", "base_seed": seed, "run_index": r["idx"], "tlc_seed": r["seed"], "num": r["num"], "depth": r["depth"],
                        "config": cfg, "cfg_file": r["cfgtext"], "violation": {"class": "invariant_violated_" + r["violated"], "detail": "%s with %s" % (cfg["spec"], cfg["consts"])},
